@@ -1263,3 +1263,82 @@ func globalPointerTable(g *ssa.Global) map[uint64]string {
 	})
 	return out
 }
+
+// ruleBlockChecksumOnEveryPath: the block object is reused from block to block, so whatever path Compress takes
+// after it has selected the bytes to store (a store to b.Data) must come to the block-checksum decision
+// (Flags.BlockChecksum()) and, where the flag is set, store b.Checksum before it returns: a path that returns early
+// leaves the checksum of the previous block (or zero) to be written behind this block's bytes.
+func ruleBlockChecksumOnEveryPath(c *Check, p *Program, rule string) {
+	cp := findFn(c, p, rule, "internal/lz4stream", "FrameDataBlock.Compress")
+	if cp == nil {
+		return
+	}
+	n := 0
+	for _, g := range deepFuncs(cp, 1) {
+		allInstrs(g, func(in ssa.Instruction) {
+			st, ok := in.(*ssa.Store)
+			if !ok || lastField(st.Addr) != "FrameDataBlock.Data" {
+				return
+			}
+			n++
+			c.Sites++
+			isDecision := func(j ssa.Instruction) bool {
+				ci, isC := j.(ssa.CallInstruction)
+				if !isC {
+					return false
+				}
+				f := staticCallee(ci)
+				return f != nil && recvTypeName(f) == "DescriptorFlags" && f.Name() == "BlockChecksum"
+			}
+			isCk := func(j ssa.Instruction) bool {
+				s2, isS := j.(*ssa.Store)
+				return isS && lastField(s2.Addr) == "FrameDataBlock.Checksum"
+			}
+			miss, trail := reachAvoid(g, in, isReturn, func(j ssa.Instruction) bool { return isDecision(j) || isCk(j) })
+			c.Cond(!miss, rule, fmt.Sprintf("Compress#blockchecksum-decided-after-data#%d", n), p.InstrPos(in), "after the bytes to store have been selected, every path to a return passes the block-checksum decision (the block object is reused: a stale checksum would follow this block)", "every path passes Flags.BlockChecksum() or a store to b.Checksum", "a return is reachable without it ("+strings.Join(trail, " -> ")+"): with block checksums enabled the block is followed by the checksum of an earlier block")
+		})
+	}
+	if n == 0 {
+		c.Fail(rule, "Compress#blockchecksum-decided-after-data", p.Pos(cp.Pos()), "the stores to b.Data in Compress are resolved", "no store to FrameDataBlock.Data (anchor unresolved)")
+		return
+	}
+	// where the flag is set the checksum is stored
+	found := 0
+	defer func() {
+		if found == 0 {
+			c.Unknown(rule, "Compress#blockchecksum-stored-when-declared", p.Pos(cp.Pos()), "where the BlockChecksum flag is set, b.Checksum is stored before Compress returns", "the branch on Flags.BlockChecksum() in Compress is not recognised")
+		}
+	}()
+	for _, g := range deepFuncs(cp, 1) {
+		for _, ci := range callsIn(g) {
+			f := staticCallee(ci)
+			if f == nil || recvTypeName(f) != "DescriptorFlags" || f.Name() != "BlockChecksum" {
+				continue
+			}
+			b := ci.Block()
+			ifi, isIf := b.Instrs[len(b.Instrs)-1].(*ssa.If)
+			if !isIf || len(b.Succs) != 2 {
+				continue
+			}
+			tb := b.Succs[0]
+			if ifi.Cond != ssa.Value(ci.Value()) {
+				if u, isU := ifi.Cond.(*ssa.UnOp); isU && u.Op == token.NOT && u.X == ssa.Value(ci.Value()) {
+					tb = b.Succs[1]
+				} else {
+					continue
+				}
+			}
+			found++
+			c.Sites++
+			miss, _ := reachAvoid(g, tb.Instrs[0], isReturn, func(j ssa.Instruction) bool {
+				s2, isS := j.(*ssa.Store)
+				return isS && lastField(s2.Addr) == "FrameDataBlock.Checksum"
+			})
+			first := false
+			if s2, isS := tb.Instrs[0].(*ssa.Store); isS && lastField(s2.Addr) == "FrameDataBlock.Checksum" {
+				first = true
+			}
+			c.Cond(first || !miss, rule, "Compress#blockchecksum-stored-when-declared", p.InstrPos(ci), "where the BlockChecksum flag is set, b.Checksum is stored before Compress returns", "store on every path of the flag's branch", "a return is reachable on the flag's branch without a store to b.Checksum")
+		}
+	}
+}
